@@ -62,7 +62,7 @@ def pipe_items(tier, kinds_q, kinds_t=None, k1=True, k1_rules=None, big=True, ge
     return out
 
 
-CHEAP = ("J", "CEG", "CO", "CO0", "IND3")  # operators with one position per line (not one per gap)
+CHEAP = ("J", "CEG", "CO", "CO0", "PPO", "PGO", "IND3")  # operators with one position per line (not one per gap)
 
 
 def wide_kinds(kinds_q, kinds_t):
